@@ -218,6 +218,10 @@ def paired_runs(ctx, stop_first=False):
             B1 = np.asarray(sol.field_at_position(pos_, zs=0.7e-6 / LENGTHS[lu], units="mT", with_units=False))
             B2 = np.asarray(sol.field_at_position(pos_, zs=0.7e-6 / LENGTHS[lu], units="mT", with_units=False))
             Kphys = np.concatenate([Kphys.ravel(), sol.current_density.to("A/m").magnitude.ravel()])
+            # the same output through the interpolating accessor, in explicit units, as bare numbers and as quantities
+            Ki1 = np.asarray(sol.interp_current_density(pos_, units="A / m", with_units=False), dtype=float)
+            Ki2 = np.asarray(sol.interp_current_density(pos_, units="A / m", with_units=True).to("A / m").magnitude, dtype=float)
+            Kphys = np.concatenate([Kphys, Ki1.ravel(), Ki2.ravel()])
             results.append((frames, Kphys, np.concatenate([B1.ravel(), B2.ravel()])))
         failed = [(c, r[1]) for c, r in zip(combos, results) if r[0] is None]
         results = [r if r[0] is None else r for r in results]
